@@ -33,7 +33,7 @@ def afm_fragment(rng, n_feat):
             budget[0] -= size
             kids = [mk(budget, depth + 1) for _ in range(size)]
             if size == 1:
-                mn, mx = rng.choice([(1, 1), (0, 1)])
+                mn, mx = rng.choice([(1, 1), (0, 1), (1, 1), (0, 1), (0, 0)])       # (0, 0): a dead single child, written as a group
             else:
                 mn, mx = rng.choice(M.cards(size, True))
             f['relations'].append({'min': mn, 'max': mx, 'children': kids})
